@@ -1016,6 +1016,14 @@ def units():
         u.append(("gen-cache/" + cn, c06.unit_gen_cache(cn)))
     for N in (1999, 2000, 2001, 4001):
         u.append(("chunk/N%d" % N, unit_chunking(N)))
+    # the C-backed evaluators: value and gradient of a call do not depend on the contents of freshly allocated (uninitialised) work memory, on a fresh object and
+    # on one that has been called before (contract shared with C11)
+    from contracts import c11
+    for kind in ("rbf", "antisym", "spin"):
+        u.append(("evaluator/" + kind, c11.unit_rbf_evaluator(kind)))
+    # FracLaplPlan: frames, and the cached l=1 data between the feature pass and the potential pass (contract shared with C01)
+    for nspin in (1, 2):
+        u.append(("fraclapl-plan/nspin%d" % nspin, c01.unit_fraclapl_plan(nspin, history=True)))
     for fn in ("nr_rks", "nr_uks", "nr_rks_nldf", "nr_uks_nldf"):
         u.append(("batch/" + fn, unit_batch(fn)))
     return u
